@@ -4,7 +4,8 @@ from common import PropSpec
 CORE_MODEL = ["LabreaModel/Value.lean", "LabreaModel/Dotted.lean", "LabreaModel/Resolve.lean",
               "LabreaModel/Expr.lean", "LabreaModel/Eval.lean", "LabreaModel/MonadLemmas.lean",
               "LabreaModel/EvalLemmas.lean", "LabreaModel/MixLemmas.lean", "LabreaModel/ResolveLemmas.lean",
-              "LabreaModel/CacheLemmas.lean", "LabreaModel/KeysLemmas.lean", "LabreaModel/CacheTransparency.lean"]
+              "LabreaModel/CacheLemmas.lean", "LabreaModel/KeysLemmas.lean", "LabreaModel/CacheTransparency.lean", "LabreaModel/Uniform.lean",
+              "LabreaModel/FaultyTransparency.lean", "LabreaModel/DatasetTransparency.lean"]
 CORE_TB = [
     "correspondence check: harness/gen.py generators, harness/impl_runner.py (builds the real labrea graph through the "
     "public API), lean/Driver.lean (parsing/printing glue), harness/core.py canonicalisation",
